@@ -9,6 +9,8 @@ package monitor
 import (
 	"sort"
 	"sync/atomic"
+
+	"github.com/gopcua/opcua"
 )
 
 // VerifHandle is one entry of Subscription.handles.
@@ -62,3 +64,6 @@ func VerifMakeItem(id, handle uint32) Item { return Item{id: id, handle: handle}
 
 // VerifNextHandle returns NodeMonitor.nextClientHandle.
 func (m *NodeMonitor) VerifNextHandle() uint32 { return atomic.LoadUint32(&m.nextClientHandle) }
+
+// VerifSub returns the underlying client subscription.
+func (s *Subscription) VerifSub() *opcua.Subscription { return s.sub }
